@@ -78,6 +78,11 @@ def stepDary (s : St) (d : Nat) (hd : 0 < d) (h : Array Nat) (ts : List String) 
     match top? h with
     | some t => match pop lt d hd h with | some h' => fin s h' (toString t) | none => (s, ub)
     | none => (s, "bad-op")
+  | ["reserve", n] =>
+    match n.toNat? with
+    | some n => if n ≤ 4096 then fin s h "ok" else (s, "bad-op")     -- capacity of heap_ is not modelled
+    | none => (s, "bad-op")
+  | ["capacity"] | ["copy"] | ["move"] => fin s h "ok"
   | ["size"] => fin s h (toString h.size)
   | ["empty"] => fin s h (if h.isEmpty then "1" else "0")
   | ["clear"] => fin s #[] "ok"
@@ -141,6 +146,11 @@ def stepAddr (s : St) (d : Nat) (hd : 0 < d) (a : AH) (ref : List Nat) (ts : Lis
         opt s' (a.update s'.lt d hd k) (if ref.contains k then ref else k :: ref) "ok"
       else (s, "bad-op")
     | _, _ => (s, "bad-op")
+  | ["reserve", n] =>
+    match n.toNat? with
+    | some n => if n ≤ 4096 then fin s (a.reserve n) ref "ok" else (s, "bad-op")
+    | none => (s, "bad-op")
+  | ["capacity"] | ["copy"] | ["move"] => fin s a ref "ok"
   | ["size"] => fin s a ref (toString a.heap.size)
   | ["empty"] => fin s a ref (if a.heap.isEmpty then "1" else "0")
   | ["clear"] => fin s a.clear [] "ok"
@@ -212,7 +222,7 @@ def stepRadix (s : St) (c : RCfg) (h : RH c) (fr : Option Int) (np : Nat) (ts : 
   let below (k : Int) : Bool := match fr with | some f => decide (k < f) | none => false
   match ts with
   | [op, ks] =>
-    if op = "push" ∨ op = "emplace" ∨ op = "getb" ∨ op = "pushb" ∨ op = "emplaceb" then
+    if op = "push" ∨ op = "emplace" ∨ op = "emplacekf" ∨ op = "getb" ∨ op = "pushb" ∨ op = "emplaceb" then
       match parseKey c ks with
       | some (k, kv) =>
         if below kv then (s, "bad-op")
@@ -260,6 +270,7 @@ def stepRadix (s : St) (c : RCfg) (h : RH c) (fr : Option Int) (np : Nat) (ts : 
   | ["size"] => fin h fr np (toString h.size)
   | ["empty"] => fin h fr np (if h.size = 0 then "1" else "0")
   | ["clear"] => fin h.clear none np "ok"
+  | ["copy"] | ["move"] => fin h fr np "ok"
   | _ => (s, "bad-op")
 
 def keyType (t : String) : Option (Nat × Bool) :=
